@@ -5,6 +5,10 @@ let () =
   | [ _; "segments"; path ] -> Drv_segments.run path
   | [ _; "recv"; path ] -> Drv_tx.run_recv path
   | [ _; "send"; path ] -> Drv_tx.run_send path
+  | [ _; "checksum"; path ] -> Drv_checksum.run path
+  | [ _; "path"; path ] -> Drv_path.run path
+  | [ _; "udp"; path ] -> Drv_udp.run path
+  | [ _; "fsmodel"; path ] -> Drv_fsmodel.run path
   | _ ->
       prerr_endline "usage: driver <component> <ops>";
       exit 2
